@@ -98,9 +98,11 @@ TypeOK ==
 \* the judge: the returned value is the abstract answer, whatever the schedule
 Answer == pc = "done" => sigok = OrderedMatch(V, n)
 
-\* the three formulations of the abstract answer agree on every matrix explored
-AbstractAgree == /\ OrderedMatch(V, n) = OrderedMatchDecl(V, n)
-                 /\ OrderedMatch(V, n) = Sequential(V, n)
+\* the three formulations of the abstract answer agree on every matrix explored (evaluated once per matrix,
+\* in the initial state)
+AbstractAgree == hist = <<>> /\ working = {} =>
+                    /\ OrderedMatch(V, n) = OrderedMatchDecl(V, n)
+                    /\ OrderedMatch(V, n) = Sequential(V, n)
 
 \* bookkeeping of the real loop: taskCount is the number of tasks/results on their way, the two cursors
 \* never cross, array indices stay in range (an index panic in a worker goroutine would kill the node)
